@@ -67,6 +67,9 @@ class Contract:
     boxes: callable = None                            # a -> {z3 var name: (lo, hi)} for witness search
     special: dict = field(default_factory=dict)       # var name -> values whose neighbourhoods the witness search visits
     note: str = ""
+    # intermediate helper (not named by any property): when its code no longer exists under this name (renamed / inlined by
+    # a refactoring) the contract is skipped with a NOTE and its callers execute whatever code they now contain
+    optional: bool = False
 
     @property
     def short(self):
@@ -213,7 +216,12 @@ def run_body(c: Contract, reg: Registry, extra_overrides=None) -> BodyRun:
     counter = [0]
     rt = Runtime(overrides=extra_overrides)
     for t in c.callees:
-        real, stub = make_stub(reg[t], counter)
+        try:
+            real, stub = make_stub(reg[t], counter)
+        except TargetMissing:
+            if reg[t].optional:
+                continue            # helper renamed / inlined: the caller's body is executed through the real code
+            raise
         rt.stub(real, stub)
     a = c.inputs()
     run = BodyRun(c, args=a)
